@@ -54,7 +54,8 @@ def plan(tier, seed):
                  'sift_cases', 'swap_calls_observed',
                  'swap_index_checks', 'held_refs_rechecked',
                  'explicit_reorderings_with_dynamic_due',
-                 'connectives_between_reorderings'],
+                 'connectives_between_reorderings',
+                 'duplicate_manager_checks'],
         assumptions=['held references are incref-ed (dd.bdd) or live '
                      'Function objects (dd.autoref)',
                      'pairs given to reorder_to_pairs are disjoint'],
@@ -182,6 +183,27 @@ def sampled(ctx, spec):
     w = World(ctx, rng, names, kind=kind, strict=False, registry=reg)
     perms = list(itertools.permutations(names))
 
+    # a duplicate of the manager (`copy.copy`), taken at the start of
+    # some rounds: what is reordered in one of the two stays there
+    tw = dict(m=None, held=[], ext={})
+
+    def check_twin(site):
+        c = tw['m']
+        if c is None:
+            return
+        try:
+            monitors.check_structure(c)
+            monitors.check_order_maps(c)
+            den = Denoter(c, w.sp)
+            for h, tt in tw['held']:
+                if den(h) != tt:
+                    raise Violation(site, 'M7-held-reference-of-the-'
+                                    'duplicate-manager-changed-meaning', h)
+        except Violation as v:
+            v.site = site
+            raise
+        ctx.counters['duplicate_manager_checks'] += 1
+
     def check(site):
         w.check(site)
         try:
@@ -189,6 +211,7 @@ def sampled(ctx, spec):
         except Violation as v:
             v.site = site
             raise
+        check_twin(site)
         ctx.counters['held_refs_rechecked'] += len(w.pool)
 
     def garbage():
@@ -234,6 +257,11 @@ def sampled(ctx, spec):
             rng.choice((w.s_apply, w.s_ite))()
             ctx.counters['connectives_between_reorderings'] += 1
         check('apply')
+        if kind == 'bdd' and rng.random() < 0.3:
+            import copy
+            tw.update(m=copy.copy(w.raw), ext=dict(w.ext),
+                      held=[(e.h, e.tt) for e in w.pool])
+            check_twin('__copy__')
         nt = any(len(w.sp.support(e.tt)) >= 2 for e in w.pool)
         key = tuple(sorted(e.tt for e in w.pool))
         # every adjacent swap
@@ -298,8 +326,26 @@ def sampled(ctx, spec):
                 ctx.counters['pairs_cases'] += 1
                 ctx.case(nt, 'pairs', n, key, start,
                          tuple(sorted(pairs.items())))
+    def end_of_round():
+        # now the duplicate is reordered, and the original looked at
+        c = tw['m']
+        if c is None:
+            return
+        vs = list(c.vars)
+        rng.shuffle(vs)
+        w._b.reorder(c, {v: i for i, v in enumerate(vs)})
+        if len(vs) > 1:
+            c.swap(0, 1)
+        w._b.reorder(c)
+        check('reordering-of-the-duplicate')
+        for u, k in tw['ext'].items():
+            for _ in range(k):
+                c.decref(u)
+        tw.update(m=None, held=[], ext={})
+
     for rnd in range(spec['rounds']):
-        ok, _ = ctx.guard(w.site, one_round, rnd, case=dict(
+        ok, _ = ctx.guard(w.site, lambda r: (one_round(r), end_of_round()),
+                          rnd, case=dict(
             spec=spec, round=rnd, order=dict(w.raw.vars),
             held=[w.sp.fmt(e.tt) for e in w.pool][:8]))
         if not ok:
